@@ -516,6 +516,24 @@ class World:
             self.v("context-exit-raises/%s" % type(e).__name__,
                    "leaving context %s raised %s: %s" % (lv["name"], type(e).__name__,
                                                          str(e)[:120]))
+        # freeze-by-protect (sections with cfg["freeze"]): an object that was taken into the
+        # basis of the context just left and protected THERE keeps its stored array (checked at
+        # the next read / unprotect) and is from now on an object of the enclosing basis: the
+        # frozen array is what it is in the basis we are back in
+        d_left = self.depth() + 1
+        for lab in self.order:
+            rec = self.objs[lab]
+            if rec["prot"] is not None and rec["prot"] == d_left:
+                rec["prot"] = d_left - 1
+                rec["H"] = {a: self.to_root(rec["kind"], rec["frozen"][a])
+                            for a in self.attrs(lab)}
+                tag = rec["obj"].get_current_basis()
+                if tag != self.mgr.get_current_basis():
+                    self.v(self.okey(rec, "bookkeeping/protected-object-basis-tag-after-exit/%s"
+                                     % rec["kind"]),
+                           "%s (protected inside the context that was left) is tagged with basis "
+                           "%r, the basis in force is %r" % (lab, tag,
+                                                             self.mgr.get_current_basis()))
         now = self._snap()
         snap = lv["snap"]
         for k in ("stack", "ntrans", "regkeys", "flag"):
@@ -635,11 +653,12 @@ class World:
                 if cfg.get("reuse_cm") and any(l["name"] == n for l in self.levels):
                     continue       # one context-manager OBJECT is not nested inside itself
                 ops.append(["enter", n])
-        if d > 0 and not prot_here:
+        freeze = bool(cfg.get("freeze"))
+        if d > 0 and (freeze or not prot_here):
             ops.append(["exit"])
             if self.nexc < cfg["nexc"]:
                 ops.append(["exit_exc"])
-        if d > 0 and not any_prot and self.nexc < cfg["nexc"]:
+        if d > 0 and (freeze or not any_prot) and self.nexc < cfg["nexc"]:
             ops.append(["raise_all"])
         if self.misfit is not None and d > 0 and self.nmisfit < 1:
             ops.append(["read_misfit"])
@@ -649,7 +668,7 @@ class World:
         for lab in self.order:
             rec = self.objs[lab]
             ops.append(["read", lab])
-            if rec["kind"] != "ctx" and rec["prot"] is None:
+            if rec["kind"] != "ctx" and rec["prot"] is None and not cfg.get("readonly"):
                 if rec["kind"] not in ("lindop", "lindten"):
                     ops.append(["write", lab])
                 if self.nexc < cfg["nexc"] and rec["kind"] in ("op", "ham", "sup") + SUP_T:
@@ -657,7 +676,7 @@ class World:
             if cfg.get("protect", True):
                 if rec["prot"] is None and rec["obj"].get_current_basis() == self.mgr.get_current_basis():
                     ops.append(["protect", lab])
-                if rec["prot"] is not None and rec["prot"] == d:
+                if rec["prot"] is not None and (rec["prot"] == d or freeze):
                     ops.append(["unprotect", lab])
         if self.napply < cfg.get("napply", 1):
             sups = [l for l in self.order
@@ -711,8 +730,37 @@ class World:
             o = self.misfit
             mf = [self.nmisfit, o.get_current_basis(),
                   sorted(k for k, v in m.basis_registered.items() if any(x is o for x in v))]
+        # everything else the bookkeeping singleton, the objects and the open context managers
+        # carry (attributes this driver does not know by name included), in a shallow canonical
+        # form: two histories are merged only if ALL of that agrees, so that a memo or cache kept
+        # anywhere there makes a different state instead of being hidden by the merge
+        hidden = [_shallow_state(m),
+                  [_shallow_state(self.objs[lab]["obj"]) for lab in self.order],
+                  [_shallow_state(l["cm"]) for l in self.levels],
+                  sorted((n, _shallow_state(c)) for n, c in getattr(self, "_cms", {}).items())]
         return [[l["name"] for l in self.levels], list(m.basis_stack), objs,
-                self.nexc, self.ncreated, self.napply, self.nat, mf, self.nadd]
+                self.nexc, self.ncreated, self.napply, self.nat, mf, self.nadd, hidden]
+
+
+def _shallow(v):
+    if isinstance(v, (bool, int, float, complex, str, type(None))):
+        return repr(v)
+    if isinstance(v, dict):
+        return ["dict", sorted(repr(k) if isinstance(k, (bool, int, float, str, tuple))
+                               else type(k).__name__ for k in v)]
+    if isinstance(v, (list, tuple, set, frozenset)):
+        return [type(v).__name__, len(v)]
+    if isinstance(v, numpy.ndarray):
+        return ["ndarray", list(v.shape), str(v.dtype)]
+    return type(v).__name__
+
+
+def _shallow_state(o):
+    try:
+        d = vars(o)
+    except TypeError:
+        return type(o).__name__
+    return [[k, _shallow(d[k])] for k in sorted(d)]
 
 
 CFG = {}
@@ -721,13 +769,31 @@ CFG = {}
 def execute(hist):
     cfg = execute.cfg
     w = World(cfg)
-    for op in hist:
-        getattr(w, op[0])(*op[1:])
+    for i, op in enumerate(hist):
+        try:
+            getattr(w, op[0])(*op[1:])
+        except isolation.HarnessError:
+            raise
+        except Exception as e:
+            # no operation of the alphabet is an error of the user: a library call that raises
+            # here (e.g. "Basis of the object is not on stack.") is lost bookkeeping
+            w.v("operation-raises/%s/%s" % (op[0], type(e).__name__),
+                "history %s: %s raised %s: %s" % (hist[:i], op, type(e).__name__, str(e)[:120]))
+            isolation.reset_manager()
+            return {"key": ["broken", hist], "enabled": [], "violations": w.viol,
+                    "nontrivial": True, "outcome": ["raised", op[0], type(e).__name__]}
     key = w.key()
     enabled = w.enabled()
     depth = w.depth()
     nobj = len(w.order)
-    w.close_and_check()
+    try:
+        w.close_and_check()
+    except isolation.HarnessError:
+        raise
+    except Exception as e:
+        w.v("operation-raises/closing/%s" % type(e).__name__,
+            "history %s, then leaving all contexts and reading every object: %s: %s"
+            % (hist, type(e).__name__, str(e)[:120]))
     nontrivial = any(o[0] == "enter" for o in hist) and any(
         o[0] in ("create", "read", "write", "apply", "at") for o in hist)
     return {"key": key, "enabled": enabled, "violations": w.viol, "nontrivial": nontrivial,
@@ -776,6 +842,16 @@ def sections(tier):
         secs.append(("reused-context-objects", {"ctx": ["A", "B"], "kinds": ["op"], "nobj": 1,
                                                 "nest": 2, "nexc": 1, "protect": False,
                                                 "reuse_cm": True}, 5))
+        # protection that is NOT bracketed around the context: protect inside and leave (the
+        # stored array is frozen, the object becomes one of the enclosing basis), lift the
+        # protection at another depth than it was set
+        secs.append(("freeze-by-protect", {"ctx": ["A", "B"], "kinds": ["op"], "nobj": 1,
+                                           "nest": 2, "nexc": 0, "protect": True, "freeze": True,
+                                           "readonly": True}, 5))
+        # sibling inner contexts inside one outer context, objects that skip a level
+        secs.append(("sibling-contexts", {"ctx": ["A", "B"], "kinds": [], "nobj": 0, "nest": 2,
+                                          "nexc": 0, "protect": False, "readonly": True,
+                                          "napply": 0, "precreate": ["op", "op"]}, 6))
         secs.append(("complex-context-operator", {"ctx": ["Z", "A"],
                                                   "kinds": ["dmom", "dme", "op", "sup"],
                                                   "nobj": 1, "nest": 2, "nexc": 1,
@@ -797,6 +873,13 @@ def sections(tier):
         secs.append(("reused-context-objects", {"ctx": ["A", "B", "C"], "kinds": ["op", "sup"],
                                                 "nobj": 2, "nest": 3, "nexc": 1, "protect": True,
                                                 "reuse_cm": True}, 6))
+        secs.append(("freeze-by-protect", {"ctx": ["A", "B"], "kinds": ["op", "sup", "dme"],
+                                           "nobj": 1, "nest": 3, "nexc": 1, "protect": True,
+                                           "freeze": True, "readonly": True}, 6))
+        secs.append(("sibling-contexts", {"ctx": ["A", "B", "C"], "kinds": [], "nobj": 0,
+                                          "nest": 3, "nexc": 0, "protect": False,
+                                          "readonly": True, "napply": 0,
+                                          "precreate": ["op", "sup"]}, 7))
         secs.append(("failed-access", {"ctx": ["A", "B"], "kinds": ["op", "sup"], "nobj": 2,
                                        "nest": 3, "nexc": 1, "protect": False, "misfit": True}, 6))
         secs.append(("apply-sup", {"ctx": ["A", "B", "C"], "kinds": [], "nobj": 0, "nest": 3,
